@@ -138,6 +138,13 @@ class Gen:
             return f'(car (cons {self.expr("int", scope, d)} {self.expr("any", scope, d)}))'
         if k == 'let':
             v = self.fresh('v')
+            outer = [n for (n, t) in scope if t == 'int']
+            if outer and r.random() < 0.4:
+                # several bindings: every operand is evaluated in the OUTER environment — the second one sees the outer value
+                # of the name the first one rebinds (let, not let*)
+                sh = r.choice(outer)
+                self.note('shadow')
+                return f'(let ({sh} {self.expr("int", scope, d)} {v} {sh}) {self.expr("int", scope + [(v, "int")], d)})'
             return f'(let ({v} {self.expr("int", scope, d)}) {self.expr("int", scope + [(v, "int")], d)})'
         if k == 'length':
             return f'(length {self.expr("list", scope, d)})'
